@@ -41,9 +41,12 @@ class Run:
         self.assumptions = []
         self.analysed = {}
         self.use_cache = (tier == 'quick') and not os.environ.get('VERIF_NO_CACHE')
+        self.cfg_map = {}
+        self.cfg_tag = ''
 
     # -- facts ------------------------------------------------------------------------
     def facts(self, cfg='Q0'):
+        cfg = self.cfg_map.get(cfg, cfg)
         if cfg not in self._facts:
             m = F.extract_ast(cfg, use_cache=self.use_cache)
             self._facts[cfg] = Facts(m)
@@ -53,6 +56,7 @@ class Run:
         return self._facts[cfg]
 
     def ir(self, cfg='Q0'):
+        cfg = self.cfg_map.get(cfg, cfg)
         if cfg not in self._ir:
             from rules import ir as IR
             self._ir[cfg] = IR.load(cfg, use_cache=self.use_cache)
@@ -61,6 +65,8 @@ class Run:
 
     # -- outcomes ------------------------------------------------------------------------
     def _add(self, status, rule, inst, where, msg, nontrivial, detail):
+        if self.cfg_tag:
+            inst = '[%s] %s' % (self.cfg_tag, inst)
         self.results.append({'status': status, 'rule': rule, 'instance': inst, 'where': where,
                              'msg': msg, 'nontrivial': bool(nontrivial), 'detail': detail})
 
@@ -82,6 +88,86 @@ class Run:
 
     def count(self, rule):
         return sum(1 for r in self.results if r['rule'] == rule)
+
+
+THOROUGH_CONFIGS = ['call', 'assert', 'nofile', 'tracing']
+
+
+def thorough(prop, mod, run):
+    """thorough tier: (1) re-evaluate the property's rules on the other build configurations (call-threaded VM, asserts on,
+    no file face, tracing on); (2) self-test: re-apply every confirmed seeded change this property is expected to catch to a
+    scratch copy of /repo's sources and require exit 1, and every neutral (behaviour-preserving) patch and require silence."""
+    import subprocess
+    out = {'configurations_thorough': ['Q0']}
+    skip = set(getattr(mod, 'SKIP_CONFIGS', ()))
+    for cfg in THOROUGH_CONFIGS:
+        if cfg in skip:
+            continue
+        run.cfg_map = {'Q0': cfg}
+        run.cfg_tag = cfg
+        for a in [k for k in vars(run) if k.startswith('_vm_') or k.startswith('_eff_')]:
+            delattr(run, a)
+        before = len(run.results)
+        try:
+            mod.run(run)
+        except AnalysisBroken as e:
+            run.broken('CONFIG', cfg, 'analysis broken in configuration %s: %s' % (cfg, e))
+        out['configurations_thorough'].append(cfg)
+        out.setdefault('instances_per_configuration', {})[cfg] = len(run.results) - before
+    run.cfg_map = {}
+    run.cfg_tag = ''
+    for a in [k for k in vars(run) if k.startswith('_vm_') or k.startswith('_eff_')]:
+        delattr(run, a)
+    # ---- self-test on scratch copies
+    sm = os.path.join(VERIF, 'bin', 'seedmatrix.py')
+    expf = os.path.join(VERIF, 'seeded', 'expected.json')
+    if os.path.exists(expf):
+        with open(expf) as fh:
+            exp = json.load(fh)['seeds']
+        mine = sorted(n for n, v in exp.items() if prop in v.get('caught_by', {}))
+        if mine:
+            tmpj = os.path.join(os.environ.get('TMPDIR', '/tmp'), 'grverif-selftest-%s-%d.json' % (prop, os.getpid()))
+            p = subprocess.run([sys.executable, sm, '--checks', prop, '--only', ','.join(mine), '--json', tmpj], capture_output=True, text=True, cwd=VERIF)
+            try:
+                with open(tmpj) as fh:
+                    got = json.load(fh)
+                os.remove(tmpj)
+            except Exception:
+                got = {}
+            ok = 0
+            for n in mine:
+                rules = (got.get(n, {}).get('caught') or {}).get(prop)
+                want = exp[n]['caught_by'][prop]
+                if rules and set(rules) & set(want):
+                    ok += 1
+                    run.held('SELFTEST', 'seed %s' % n, 'seeded/%s/patch.diff' % n, 'reported by %s as before' % '+'.join(rules))
+                else:
+                    run.broken('SELFTEST', 'seed %s' % n, 'the confirmed seeded change %s is no longer reported by %s (expected rule %s, got %s): the check lost sensitivity'
+                               % (n, prop, want, got.get(n)))
+            out['selftest_seeds'] = {'expected': len(mine), 'caught': ok}
+    neutral = sorted(os.listdir(os.path.join(VERIF, 'selftest', 'neutral'))) if os.path.isdir(os.path.join(VERIF, 'selftest', 'neutral')) else []
+    neutral = [n for n in neutral if n.endswith('.diff')]
+    if neutral:
+        tmpj = os.path.join(os.environ.get('TMPDIR', '/tmp'), 'grverif-neutral-%s-%d.json' % (prop, os.getpid()))
+        p = subprocess.run([sys.executable, sm, '--checks', prop, '--dir', 'selftest/neutral', '--json', tmpj], capture_output=True, text=True, cwd=VERIF)
+        try:
+            with open(tmpj) as fh:
+                got = json.load(fh)
+            os.remove(tmpj)
+        except Exception:
+            got = {}
+        silent = 0
+        for n, r in sorted(got.items()):
+            if r.get('error'):
+                run.observe('neutral patch %s did not apply: %s' % (n, r['error'][:80]))
+                continue
+            if prop in (r.get('caught') or {}):
+                run.broken('SELFTEST', 'neutral %s' % n, 'FALSE ALARM: the behaviour-preserving patch selftest/neutral/%s.diff makes %s report %s' % (n, prop, r['caught'][prop]))
+            else:
+                silent += 1
+                run.held('SELFTEST', 'neutral %s' % n, 'selftest/neutral/%s.diff' % n, 'no violation reported on a behaviour-preserving patch' + (' (analysis-broken: needs re-confirmation)' if prop in r.get('broken', []) else ''), False)
+        out['selftest_neutral'] = {'patches': len(got), 'silent': silent}
+    return out
 
 
 def load_known():
@@ -163,6 +249,7 @@ def main():
         print('ANALYSIS-BROKEN property=%s no rule module: %s' % (prop, e))
         return 2
     broken_msgs = []
+    extra = {}
     try:
         mod.run(run)
         floors = getattr(mod, 'FLOORS', {})
@@ -170,6 +257,8 @@ def main():
             n = len({r['instance'] for r in run.results if r['rule'] == rule})
             if n < floor:
                 run.broken(rule, '*', 'rule matched %d instances, below the hand-confirmed floor %d' % (n, floor))
+        if tier == 'thorough' and not only:
+            extra = thorough(prop, mod, run)
     except AnalysisBroken as e:
         broken_msgs.append(str(e))
     except Exception as e:                                  # engine bug: never a pass
@@ -235,7 +324,7 @@ def main():
         if broken_msgs:
             expl = 'ANALYSIS BROKEN on this run: ' + '; '.join(broken_msgs)[:500] + ' -- ' + expl
         write_evidence(prop, tier, seed, getattr(mod, 'LEVEL', 'other'), run, wall,
-                       len(new_viol), expl, getattr(mod, 'extra_evidence', lambda r: None)(run))
+                       len(new_viol), expl, dict(extra or {}, **(getattr(mod, 'extra_evidence', lambda r: {})(run) or {})))
     print('%s: exit %d (%.1fs)' % (prop, code, wall))
     return code
 
